@@ -226,3 +226,69 @@ func sweepBrokerWrites(g *G, idx funcIndex, cs *contractSet, prop string) ([]*Ob
 	}
 	return obls, []string{"A-SWEEP: packets reach the broker only through method calls named Write on paho packets, util.ConnWithContext, net.Conn or io.Writer values (no reflection, no unsafe, no raw file-descriptor writes) in package gateway"}, nil
 }
+
+// sweepAuthOnlyInConnect (C31): the contract of Client.Connect says when an
+// AUTH is sent after a CONNECT. This sweep adds that nothing else in the client
+// library builds one:
+//
+//	sweep.auth_only_in_connect.N   every allocation of a packets1.Auth or
+//	                               packets1.Connect, and every call of a
+//	                               packets1 constructor returning one, in
+//	                               package client lies in (*Client).Connect.
+func sweepAuthOnlyInConnect(g *G, idx funcIndex, cs *contractSet, prop string) ([]*Obligation, []string, error) {
+	var keys []string
+	for k := range idx {
+		if strings.HasPrefix(k, "client.") {
+			keys = append(keys, k)
+		}
+	}
+	sort.Strings(keys)
+	if len(keys) == 0 {
+		return nil, nil, fmt.Errorf("sweep: no function of package client loaded")
+	}
+	isAC := func(t types.Type) bool {
+		n, ok := namedIn(t, repoPrefix+"/packets1")
+		return ok && (n == "Auth" || n == "Connect")
+	}
+	var obls []*Obligation
+	seen := false
+	for _, k := range keys {
+		fn := idx[k]
+		if fn.Blocks == nil || strings.HasSuffix(g.fset.Position(fn.Pos()).Filename, "_test.go") {
+			continue
+		}
+		n := 0
+		for _, b := range fn.Blocks {
+			for _, in := range b.Instrs {
+				hit := false
+				switch x := in.(type) {
+				case *ssa.Alloc:
+					hit = isAC(x.Type())
+				case ssa.CallInstruction:
+					if f := x.Common().StaticCallee(); f != nil && f.Signature.Results().Len() == 1 && isAC(f.Signature.Results().At(0).Type()) {
+						hit = true
+					}
+				}
+				if !hit {
+					continue
+				}
+				seen = true
+				ok := k == "client.(*Client).Connect"
+				pp := g.fset.Position(in.Pos())
+				o := &Obligation{Name: fmt.Sprintf("%s#sweep.auth_only_in_connect.%d", k, n), Kind: "sweep", Fn: k, Tags: []string{prop},
+					Pos:  fmt.Sprintf("%s:%d", strings.TrimPrefix(pp.Filename, repoRoot+"/"), pp.Line),
+					Goal: TTrue, Solver: "syntactic", Result: "unsat",
+					Note: "a CONNECT or AUTH packet is built outside Client.Connect, whose contract is the only place that decides when an AUTH follows a CONNECT"}
+				if !ok {
+					o.Goal, o.Result, o.Raw = TFalse, "sat", o.Note
+				}
+				obls = append(obls, o)
+				n++
+			}
+		}
+	}
+	if !seen {
+		return nil, nil, fmt.Errorf("sweep: package client builds no CONNECT/AUTH packet (renamed?)")
+	}
+	return obls, []string{"A-SWEEP-CLIENT: CONNECT and AUTH packets are built only by packets1 constructors or composite literals (no reflection) in package client"}, nil
+}
